@@ -66,6 +66,8 @@ type gen = {
 
 let fixed = { from_rel = relation_from_str dv_parse; from_rels = relations_from_str dv_parse;
               pr_rel = print_relation dv_print; pr_rels = print_relations dv_print }
+let oldnl = { from_rel = oldnl_relation_from_str dv_parse; from_rels = oldnl_relations_from_str dv_parse;
+              pr_rel = print_relation dv_print; pr_rels = print_relations dv_print }
 let old = { from_rel = old_relation_from_str dv_parse; from_rels = old_relations_from_str dv_parse;
             pr_rel = old_print_relation dv_print; pr_rels = old_print_relations dv_print }
 
@@ -133,5 +135,7 @@ let () =
   register "rel-lossy-text" (rel_lossy_text fixed);
   register "rel-lossy-conv" rel_lossy_conv;
   register "debversion" debversion;
+  register "rel-lossy-oldnl" (rel_lossy oldnl);
+  register "rel-lossy-text-oldnl" (rel_lossy_text oldnl);
   register "rel-lossy-old" (rel_lossy old);
   register "rel-lossy-text-old" (rel_lossy_text old)
